@@ -17,6 +17,7 @@
 #include <foonathan/memory/memory_pool.hpp>
 #include <foonathan/memory/temporary_allocator.hpp>
 #include <foonathan/memory/threading.hpp>
+#include <foonathan/memory/tracking.hpp>
 
 #include "../vf/vf.hpp"
 
@@ -140,16 +141,32 @@ namespace
         }
     };
 
-    // stateful composable allocator shell (memory from operator new, sizes remembered)
-    class Shell
+    // stateful composable allocator shell (memory from operator new, sizes remembered).
+    // ShellT<false> is the documented idiom "empty class that declares itself stateful" (a handle
+    // onto state kept elsewhere): wrappers must not conclude statelessness from emptiness.
+    template <bool Data>
+    struct ShellId
+    {
+        int id_ = 0;
+    };
+    template <>
+    struct ShellId<false>
+    {
+    };
+    template <bool Data>
+    class ShellT : ShellId<Data>
     {
     public:
         using is_stateful = std::true_type;
-        explicit Shell(int id = 0) : id_(id) {}
-        Shell(Shell&& o) noexcept : id_(o.id_) {}
-        Shell& operator=(Shell&& o) noexcept
+        explicit ShellT(int id = 0)
         {
-            id_ = o.id_;
+            if constexpr (Data)
+                this->id_ = id;
+        }
+        ShellT(ShellT&& o) noexcept : ShellId<Data>(o) {}
+        ShellT& operator=(ShellT&& o) noexcept
+        {
+            static_cast<ShellId<Data>&>(*this) = o;
             return *this;
         }
         void* allocate_node(std::size_t s, std::size_t)
@@ -209,9 +226,16 @@ namespace
             Enter e("max_alignment");
             return 16;
         }
-
-    private:
-        int id_;
+    };
+    using Shell      = ShellT<true>;
+    using EmptyShell = ShellT<false>;
+    static_assert(std::is_empty<EmptyShell>::value, "EmptyShell must be an empty class");
+    struct NullTracker
+    {
+        void on_node_allocation(void*, std::size_t, std::size_t) noexcept {}
+        void on_array_allocation(void*, std::size_t, std::size_t, std::size_t) noexcept {}
+        void on_node_deallocation(void*, std::size_t, std::size_t) noexcept {}
+        void on_array_deallocation(void*, std::size_t, std::size_t, std::size_t) noexcept {}
     };
 
     // stateless allocator: needs and takes no lock
@@ -597,10 +621,11 @@ namespace
         T_shrink,     // request shrink_to_fit on the innermost scope
         T_open_explicit, // scope on an explicit temporary_stack object
         T_advance,       // let a thread that is stopped inside a list operation run to its next scheduling point
+        T_race,          // single-preemption schedule: thread x runs k segments of acquiring a stack, thread y acquires one completely, x finishes
         T__count
     };
     const char* tnames[T__count] = {"start", "init_ctor", "get_stack", "open", "alloc", "close", "init_dtor",
-                                    "exit", "shrink", "open_explicit", "advance"};
+                                    "exit", "shrink", "open_explicit", "advance", "race"};
 
     struct Scope
     {
@@ -727,6 +752,7 @@ namespace
             actors[0]->started = true; // main
         }
 
+        unsigned n_races = 0;
         unsigned n_inner_switches = 0; // scheduling decisions taken while an actor was inside a list operation
         void drain(unsigned a)
         {
@@ -1042,8 +1068,43 @@ namespace
                 begin_exit(a);
                 return;
             case T_advance:
-                advance(a);
+                // one segment, or a run of segments (a thread has to get deep into an operation
+                // before another one is scheduled)
+                for (unsigned i = 0, n = op.b % 2 ? 1 + op.c % 8 : 1; i < n; ++i)
+                    advance(a);
                 return;
+            case T_race:
+            {
+                unsigned n = unsigned(actors.size());
+                if (n < 3 || !hooks)
+                    return;
+                unsigned x = 1 + op.a % (n - 1), y = 1 + (x + op.b % (n - 2)) % (n - 1);
+                if (x == y)
+                    return;
+                for (unsigned w : {x, y})
+                    if (!actors[w]->started)
+                    {
+                        Op st{};
+                        st.kind = T_start;
+                        st.a    = w;
+                        step(st);
+                    }
+                if (!usable(x) || !usable(y))
+                    return;
+                Op g{};
+                g.kind = T_get_stack;
+                g.a    = x;
+                step(g); // x stops at its first scheduling point (if it has to acquire a stack at all)
+                for (unsigned i = 0; i < op.c % 10; ++i)
+                    if (actors[x]->in_flight())
+                        advance(x);
+                g.a = y;
+                step(g);
+                drain(y);
+                drain(x);
+                ++n_races;
+                return;
+            }
             default:
                 return;
             }
@@ -1211,9 +1272,10 @@ namespace
                     n = std::snprintf(buf, sizeof buf, "FAIL %s\nMSG %s\n", f.v.signature.c_str(), f.v.message.c_str());
                 else
                     n = std::snprintf(buf, sizeof buf, "OK uses=%u stacks=%zu peak=%u depth=%u growth_inner=%u replay=%u "
-                                                        "switches=%u initdtor=%u threads=%u inner=%u\n",
+                                                        "switches=%u initdtor=%u threads=%u inner=%u races=%u\n",
                                       c.uses, c.stacks_seen.size(), c.peak_holding, c.depth_max, c.growth_inner,
-                                      c.n_replay, c.n_switches, c.n_init_dtor_before_use, nthreads, c.n_inner_switches);
+                                      c.n_replay, c.n_switches, c.n_init_dtor_before_use, nthreads, c.n_inner_switches,
+                                      c.n_races);
                 (void)!write(fds[1], buf, size_t(n));
                 if (f.failed)
                     _exit(0); // never run destructors over a state that already violated the property
@@ -1264,10 +1326,13 @@ namespace
             auto pos = out.find("LEAK ");
             if (pos != std::string::npos)
                 f("leak-at-exit", "at program exit the library reported: " + out.substr(pos, 120));
-            unsigned uses = 0, peak = 0, depth = 0, growth = 0, replay = 0, sw = 0, initd = 0, thr = 0, inner = 0;
+            unsigned uses = 0, peak = 0, depth = 0, growth = 0, replay = 0, sw = 0, initd = 0, thr = 0, inner = 0, races = 0;
             size_t   stacks = 0;
-            std::sscanf(out.c_str(), "OK uses=%u stacks=%zu peak=%u depth=%u growth_inner=%u replay=%u switches=%u initdtor=%u threads=%u inner=%u",
-                        &uses, &stacks, &peak, &depth, &growth, &replay, &sw, &initd, &thr, &inner);
+            std::sscanf(out.c_str(), "OK uses=%u stacks=%zu peak=%u depth=%u growth_inner=%u replay=%u switches=%u initdtor=%u threads=%u inner=%u races=%u",
+                        &uses, &stacks, &peak, &depth, &growth, &replay, &sw, &initd, &thr, &inner, &races);
+            if (races)
+                ci.classes.insert("single-preemption-race");
+            ci.counters["single_preemption_races"] += races;
             if (inner)
                 ci.classes.insert("switch-inside-list-operation");
             ci.counters["switches_inside_list_operations"] += inner;
@@ -1312,7 +1377,8 @@ namespace
             {
                 out.max_ops = 60;
                 out.kinds   = {{tnames[0], 4}, {tnames[1], 3}, {tnames[2], 4}, {tnames[3], 8}, {tnames[4], 10},
-                               {tnames[5], 7}, {tnames[6], 3}, {tnames[7], 3}, {tnames[8], 1}, {tnames[9], 1}, {tnames[10], 10}};
+                               {tnames[5], 7}, {tnames[6], 3}, {tnames[7], 3}, {tnames[8], 1}, {tnames[9], 1}, {tnames[10], 10},
+                               {tnames[11], 4}};
                 out.rule    = "single thread: nesting depth >= 3 with block growth inside an inner scope; threads: >= 2 "
                               "stack uses with >= 3 context switches and overlapping holders, an initializer destroyed "
                               "before a later use, or sequential threads (reuse)";
@@ -1329,7 +1395,7 @@ namespace
         {
             if (spec.property == "C14")
                 return run_c14(p, ci, FOONATHAN_MEMORY_TEMPORARY_STACK_MODE == 1);
-            unsigned which = p.params.empty() ? 0 : p.params[0] % 5;
+            unsigned which = p.params.empty() ? 0 : p.params[0] % 9;
             switch (which)
             {
             case 0:
@@ -1352,8 +1418,33 @@ namespace
                 using S = fm::thread_safe_allocator<Shell, VMutex>;
                 return run_c13<S>("thread_safe_allocator<Shell,VMutex>", p, ci, [](Shell&) { return new S(Shell(3)); });
             }
-            default:
+            case 4:
                 return run_c13_stateless(p, ci);
+            case 5:
+            {
+                using S = fm::thread_safe_allocator<EmptyShell, VMutex>;
+                return run_c13<S>("thread_safe_allocator<EmptyStateful,VMutex>", p, ci,
+                                  [](Shell&) { return new S(EmptyShell()); });
+            }
+            case 6:
+            {
+                using TA = fm::tracked_allocator<NullTracker, EmptyShell>;
+                using S  = fm::thread_safe_allocator<TA, VMutex>;
+                return run_c13<S>("thread_safe_allocator<tracked<EmptyStateful>>,VMutex", p, ci,
+                                  [](Shell&) { return new S(TA(NullTracker{}, EmptyShell())); });
+            }
+            case 7:
+            {
+                using TA = fm::tracked_allocator<NullTracker, Shell>;
+                using S  = fm::thread_safe_allocator<TA, VMutex>;
+                return run_c13<S>("thread_safe_allocator<tracked<Shell>>,VMutex", p, ci,
+                                  [](Shell&) { return new S(TA(NullTracker{}, Shell(4))); });
+            }
+            default:
+            {
+                using S = fm::allocator_storage<fm::direct_storage<EmptyShell>, VMutex>;
+                return run_c13<S>("direct<EmptyStateful>,VMutex", p, ci, [](Shell&) { return new S(EmptyShell()); });
+            }
             }
         }
     };
